@@ -73,6 +73,10 @@ func main() {
 	engine := flag.String("engine", "", "engine: '', f32, f64")
 	cfgName := flag.String("cfgname", "default", "configuration label")
 	calc := flag.Bool("calc", false, "cross-check the shape-only calculators (C13)")
+	opsF := flag.String("ops", "all", "operators substituted for OP: all, or a comma list")
+	opRotate := flag.Int("oprotate", 0, "if >0: only this many operators per case, rotating")
+	entriesF := flag.String("entries", "func", "entry points: func, method or func,method")
+	palRotate := flag.Int("palrotate", 0, "if >0: only this many palettes per case, rotating")
 	verbose := flag.Bool("v", false, "print divergences")
 	flag.Parse()
 
@@ -107,6 +111,7 @@ func main() {
 		}
 		defer out.Close()
 	}
+	entries := strings.Split(*entriesF, ",")
 	stats := world.NewStats()
 	sc := bufio.NewScanner(f)
 	sc.Buffer(make([]byte, 1<<20), 1<<28)
@@ -139,26 +144,68 @@ func main() {
 				use = append(use, dtl[(idx+*seed+k*5)%len(dtl)])
 			}
 		}
-		for _, d := range use {
+		subs := []string{""}
+		if kind := world.ElemKind(&c); kind != "" {
+			var all []string
+			switch kind {
+			case "Arith":
+				all = world.ArithOps
+			case "Cmp":
+				all = world.CmpOps
+			case "Unary":
+				all = world.UnaryOps
+			}
+			subs = nil
+			if *opsF == "all" {
+				subs = all
+			} else {
+				for _, o := range strings.Split(*opsF, ",") {
+					for _, x := range all {
+						if x == o {
+							subs = append(subs, o)
+						}
+					}
+				}
+			}
+			if *opRotate > 0 && *opRotate < len(subs) {
+				var pick []string
+				for k := 0; k < *opRotate; k++ {
+					pick = append(pick, subs[(idx*3+*seed+k*3)%len(subs)])
+				}
+				subs = pick
+			}
+		}
+		usePal := pall
+		if *palRotate > 0 && *palRotate < len(pall) {
+			usePal = nil
+			for k := 0; k < *palRotate; k++ {
+				usePal = append(usePal, pall[(idx+*seed+k)%len(pall)])
+			}
+		}
+		for di, d := range use {
 			if !world.Applicable(&c, d) {
 				continue
 			}
-			for _, p := range pall {
-				cfg := world.Config{D: d, Pal: p, Engine: *engine, Name: *cfgName, Calc: *calc}
-				dv, oc := world.Run(&c, cfg, stats)
-				if oc == world.Passed && len(c.Steps) > 1 {
-					stats.Nontrivial++
-				}
-				if dv != nil {
-					ndiv++
-					if *verbose {
-						fmt.Println("DIVERGENCE", dv.String())
+			for pi, p := range usePal {
+				for si, sub := range subs {
+					entry := entries[(idx+di+pi+si)%len(entries)]
+					cfg := world.Config{D: d, Pal: p, Engine: *engine, Name: *cfgName, Calc: *calc, Sub: sub, Entry: entry}
+					dv, oc := world.Run(&c, cfg, stats)
+					if oc == world.Passed && len(c.Steps) > 1 {
+						stats.Nontrivial++
 					}
-					if out != nil {
-						rec := map[string]interface{}{"div": dv, "case": json.RawMessage(line)}
-						b, _ := json.Marshal(rec)
-						out.Write(b)
-						out.Write([]byte("\n"))
+					if dv != nil {
+						ndiv++
+						dv.Sub, dv.Entry, dv.Engine = sub, entry, *engine
+						if *verbose {
+							fmt.Println("DIVERGENCE", dv.String())
+						}
+						if out != nil {
+							rec := map[string]interface{}{"div": dv, "case": json.RawMessage(line)}
+							b, _ := json.Marshal(rec)
+							out.Write(b)
+							out.Write([]byte("\n"))
+						}
 					}
 				}
 			}
